@@ -26,7 +26,10 @@ RULE = ("real FsDropInService on a scratch directory (real inotify) with a real 
         "non-numeric / overflowing / negative delays, failing second ruleset), interleaved with main-loop ticks "
         "(updateDropIns + prerun + runOnce) either at script positions (seq) or continuously from the main thread "
         "while a helper thread performs the file operations (par); families: startup, churn, par, rewrite-invalid, "
-        "badnum, recreate, reload-race, rename, partial, nodir, realplugin (a real core plugin with arbitrary arguments is compiled "
+        "badnum, recreate, reload-race, rename, partial, nodir, same-content (byte-identical valid content written "
+        "again to the same or another name after invalid content / truncation / slow in-place rewrite / delete / "
+        "rename away and back / directory re-creation; the general families also re-use earlier content with "
+        "probability 0.2), realplugin (a real core plugin with arbitrary arguments is compiled "
         "on the watcher thread; never executed).  After the script: wait for the watcher to go idle (inotify "
         "queue empty and thread in epoll_wait), 3 ticks, probe, 15 ms, tick, probe again.  non-trivial = at least "
         "two file operations and, at the end, an active drop-in or an invalid / dot file present")
@@ -163,6 +166,15 @@ class Builder:
         self.contents[str(cid)] = make_content(rng, cid, kind)
         return cid
 
+    def again(self, p=0.2):
+        """a content id: with probability p one that was used before (byte-identical bytes written again, to the same
+        or to another name), otherwise a fresh one"""
+        old = [int(k) for k, v in self.contents.items() if v["kind"] != "real"]
+        if old and self.rng.random() < p:
+            valid = [c for c in old if self.contents[str(c)]["valid"]]
+            return self.rng.choice(valid if valid and self.rng.random() < 0.8 else old)
+        return self.content()
+
     def name(self, dots=0.15):
         return self.rng.choice(NAMES[8:]) if self.rng.random() < dots else self.rng.choice(NAMES[:8])
 
@@ -179,14 +191,14 @@ class Builder:
         rng = self.rng
         r = rng.random()
         if r < 0.30:
-            self.ops.append({"op": "write", "name": self.name(), "cid": self.content()})
+            self.ops.append({"op": "write", "name": self.name(), "cid": self.again()})
         elif r < 0.40:
-            cid = self.content()
+            cid = self.again()
             n = len(self.contents[str(cid)]["text"])
             self.ops.append({"op": "write2", "name": self.name(), "cid": cid, "at": rng.randint(1, max(1, n - 1)),
                              "us": rng.choice([0, 0, 100, 1500])})
         elif r < 0.52:
-            self.ops.append({"op": "movein", "name": self.name(), "cid": self.content()})
+            self.ops.append({"op": "movein", "name": self.name(), "cid": self.again()})
         elif r < 0.64:
             self.ops.append({"op": "rename", "from": self.name(0.25), "to": self.name(0.25)})
         elif r < 0.72:
@@ -388,6 +400,92 @@ def gen_realplugin(rng):
     return b.scenario()
 
 
+def gen_same_content(rng):
+    """byte-identical valid content X comes back to a name after something made the service drop it (or not): X,
+    invalid, X; X, truncate, pause, X; X rewritten in place slowly; X, delete, X; X, rename away and back; two names
+    with the same X; X again after the directory was deleted and re-created"""
+    b = Builder(rng, "same-content")
+    b.initial(rng.randint(0, 2))
+    n = b.name(0)
+    x = b.content(valid=True)
+    while not b.contents[str(x)]["targets"]:
+        x = b.content(valid=True)
+    text = b.contents[str(x)]["text"]
+
+    def put(cid, slow=False):
+        how = rng.random()
+        if slow or how < 0.25:
+            t = b.contents[str(cid)]["text"]
+            b.ops.append({"op": "write2", "name": n, "cid": cid, "at": rng.randint(1, max(1, len(t) - 1)),
+                          "us": rng.choice([500, 3000, 8000]) if slow else rng.choice([0, 200, 2000])})
+        elif how < 0.65:
+            b.ops.append({"op": "write", "name": n, "cid": cid})
+        else:
+            b.ops.append({"op": "movein", "name": n, "cid": cid})
+
+    def gap():
+        r = rng.random()
+        if r < 0.35:
+            b.ops += [{"op": "wait"}, {"op": "tick"}]
+        elif r < 0.5:
+            b.ops.append({"op": "wait"})
+        elif r < 0.65:
+            b.ops.append({"op": "tick"})
+        elif r < 0.8:
+            b.ops.append({"op": "us", "n": rng.choice([100, 1000, 4000])})
+
+    if b.init and rng.random() < 0.3:
+        b.init[0] = [n, x]
+        b.init = [f for i, f in enumerate(b.init) if i == 0 or f[0] != n]
+    else:
+        put(x)
+    gap()
+    for _ in range(rng.randint(1, 3)):
+        pat = rng.choice(["invalid", "trunc", "slow", "delete", "away-back", "twin", "recreate", "other-valid"])
+        if pat == "invalid":
+            put(b.content(valid=False))
+            gap()
+            put(x)
+        elif pat == "trunc":
+            b.ops.append({"op": "trunc", "name": n})
+            gap()
+            put(x)
+        elif pat == "slow":
+            put(x, slow=True)
+        elif pat == "delete":
+            b.ops.append({"op": rng.choice(["delete", "moveout"]), "name": n})
+            gap()
+            put(x)
+        elif pat == "away-back":
+            m = rng.choice([".tmp", ".hid", "z9", "_x"])
+            if m != n:
+                b.ops.append({"op": "rename", "from": n, "to": m})
+                gap()
+                b.ops.append({"op": "rename", "from": m, "to": n})
+        elif pat == "twin":
+            m = b.name(0.1)
+            b.ops.append({"op": rng.choice(["write", "movein"]), "name": m, "cid": x})
+            if rng.random() < 0.4:
+                gap()
+                b.ops.append({"op": "delete", "name": rng.choice([m, n])})
+                if rng.random() < 0.5:
+                    gap()
+                    put(x)
+        elif pat == "recreate":
+            b.ops.append({"op": "rmdir"})
+            gap()
+            b.ops.append({"op": "mkdir"})
+            gap()
+            put(x)
+        else:
+            put(b.content(valid=True))
+            gap()
+            put(x)
+        gap()
+    assert text == b.contents[str(x)]["text"]
+    return b.scenario(mode=rng.choice(["seq", "seq", "par"]), tick_us=rng.choice([0, 100, 1000]))
+
+
 def gen_reload_race(rng):
     """the directory is re-created and one or two names are rewritten again and again with different valid contents
     while the main thread ticks continuously: the re-registration's load of the existing files (main thread) overlaps
@@ -408,7 +506,7 @@ def gen_reload_race(rng):
     return s
 
 
-FAMILIES = {"startup": gen_startup, "realplugin": gen_realplugin, "reload-race": gen_reload_race, "churn": gen_churn, "par": lambda r: gen_churn(r, "par"),
+FAMILIES = {"startup": gen_startup, "realplugin": gen_realplugin, "same-content": gen_same_content, "reload-race": gen_reload_race, "churn": gen_churn, "par": lambda r: gen_churn(r, "par"),
             "rewrite-invalid": gen_rewrite_invalid, "badnum": gen_badnum, "recreate": gen_recreate,
             "rename": gen_rename, "partial": gen_partial, "nodir": gen_nodir,
             "long": lambda r: gen_churn(r, r.choice(["seq", "par"]), n=r.randint(40, 120))}
@@ -417,9 +515,10 @@ FAMILIES = {"startup": gen_startup, "realplugin": gen_realplugin, "reload-race":
 def gen(rng, tier):
     n = {"quick": 2, "thorough": 50, "search": 3}[tier]
     plan = [("startup", 60), ("churn", 130), ("par", 130), ("rewrite-invalid", 60), ("badnum", 30), ("recreate", 90),
-            ("rename", 50), ("partial", 40), ("nodir", 30), ("long", 12), ("realplugin", 40), ("reload-race", 40)]
+            ("rename", 50), ("partial", 40), ("nodir", 30), ("long", 12), ("realplugin", 40), ("reload-race", 40), ("same-content", 90)]
     if tier == "search":
-        plan = [("churn", 100), ("par", 100), ("rewrite-invalid", 80), ("recreate", 80), ("badnum", 40), ("startup", 40)]
+        plan = [("churn", 100), ("par", 100), ("rewrite-invalid", 80), ("recreate", 80), ("badnum", 40), ("startup", 40),
+                ("same-content", 80)]
     for fam, k in plan:
         for _ in range(k * n):
             yield FAMILIES[fam](rng)
